@@ -445,7 +445,11 @@ def dedup_setup(n_blocks):
 def dedup_self(eng, name):
     fa = Obj('Fasta', {})
     fa.vc_immutable = True
-    return Obj('Molecule', {'chromosome': 'chr1', 'reference': fa, 'strand': named(BOOL, 'strand')},
+    # the molecule's span is what Fragment.update_span / Molecule._add_fragment make of the mates' orientation: with
+    # dove-tailing mates aligned bases lie outside it, so nothing ties it to the aligned blocks but start <= end
+    ss, se = named(INT, 'span_start'), named(INT, 'span_end')
+    eng.assume(z3.And(ss.z >= 0, ss.z <= se.z))
+    return Obj('Molecule', {'chromosome': 'chr1', 'reference': fa, 'strand': named(BOOL, 'strand'), 'spanStart': ss, 'spanEnd': se},
                info=eng.loader.classref(FM, 'Molecule'))
 
 
@@ -500,6 +504,8 @@ def dedup_replay(inputs, clause):
     md_of = import_real(FS, 'create_MD_tag')
     g = inputs.get('ghost', {})
     cigar = [(op, max(1, min(int(n), 40))) for op, n in g['CIGAR']]
+    if cigar[0][0] == 'M' and cigar[0][1] < 8:
+        cigar[0] = ('M', 8)      # room for a dove-tailing mate pair on the first block (any admissible length will do)
     mns = inputs.get('max_N_span')
     rng = random.Random(7)
     off = 100
@@ -529,6 +535,21 @@ def dedup_replay(inputs, clause):
             frags.append(Fragment([s, None]))
             blocks.append((pos, pos + n))
         pos += n
+    # second history for the first block: dove-tailing mates (the reverse mate starts upstream of the forward mate), so the
+    # span of the fragment (forward start .. reverse end) starts after the first aligned base
+    n0 = cigar[0][1]
+    if cigar[0][0] == 'M' and n0 >= 6 and inputs.get('_dovetail', True):
+        first = frags[0][0]
+        mate1 = pysam.AlignedSegment(header)
+        mate1.query_name = mate2_name = 'q0'
+        mate1.reference_id, mate1.reference_start = 0, off + 3
+        mate1.query_sequence = first.query_sequence[3:]
+        mate1.query_qualities = pysam.qualitystring_to_array('I' * (n0 - 3))
+        mate1.cigartuples, mate1.mapping_quality, mate1.flag = [(0, n0 - 3)], 60, 0x1 | 0x2 | 0x40 | 0x20
+        first.flag = 0x1 | 0x2 | 0x80 | 0x10
+        for t, v in (('SM', 'cell'), ('RX', 'ACG'), ('MX', 'x'), ('DS', off), ('BC', 'AAAA')):
+            mate1.set_tag(t, v)
+        frags[0] = Fragment([mate1, first])
     m = Mol(frags[0], reference=Ref())
     for f in frags[1:]:
         m._add_fragment(f)
